@@ -628,9 +628,18 @@ pub fn oracle_c11(op: &str, outs: &[String]) -> String {
                     if !out.contains("keys=ok") {
                         return "FAIL:session-keys-differ-from-the-derivation".into();
                     }
-                    let before = snaps[..i].iter().rev().flatten().next().cloned();
-                    let after = match snaps[i..].iter().flatten().next() {
-                        Some(s) => s.clone(),
+                    // the last snapshot describes the configuration before the accept only if no
+                    // Class A downlink or new session lies in between
+                    let before = snaps[..i].iter().rposition(|s| s.is_some()).and_then(|bi| {
+                        let stale = evs[bi + 1..i].iter().any(|e| {
+                            let k = e.split_whitespace().next().unwrap_or("");
+                            matches!(k, "rx1" | "rx2" | "abp" | "sess" | "*rx1" | "*rx2" | "adr" | "dr")
+                        });
+                        if stale { None } else { snaps[bi].clone() }
+                    });
+                    // only a snapshot taken right after the accept describes the session it created
+                    let after = match snaps.get(i + 1).cloned().flatten() {
+                        Some(s) => s,
                         None => continue,
                     };
                     let devaddr: u32 = w[5].parse().unwrap_or(0);
@@ -696,7 +705,9 @@ pub fn oracle_c11(op: &str, outs: &[String]) -> String {
                 if out != "resp=NoJoinAccept" {
                     return format!("FAIL:failed-join-attempt-reported-{}", out);
                 }
-                if let Some(Some(s)) = snaps[i..].iter().find(|s| s.is_some()) {
+                // judged only on a snapshot taken right after the failed attempt (a later one may
+                // follow another, successful, join)
+                if let Some(Some(s)) = snaps.get(i + 1) {
                     if s.st == 2 {
                         return "FAIL:joined-without-join-accept".into();
                     }
